@@ -8,8 +8,11 @@ depends on how much fuel was given.  `negate`, `implies`, `Pred.beq`, `optimize`
 are pure total functions of the model, so history independence is definitional
 on the Lean side; its content for the code is the correspondence (snapshots).
 
-What is NOT proved: `C12_terminates` (∀ p, ∃ n, the model answers) and the
-polynomial bound.  See DESIGN.md §7 C12 / §10.
+Termination itself — `C12_terminates`, with the explicit linear bound on the
+recursion depth `C12_depth_linear` / `C12_depth_le_size`, the weight theorem and
+the cost model — is in `Props/C12T.lean`.  What is NOT proved: a polynomial bound
+on the number of invocations (proved: finite, exponential bound; linear on the
+and/or/not fragment; measured: quadratic).  See DESIGN.md §12.6.
 -/
 import PyPred.Lemmas.Mono
 import PyPred.Lemmas.Laws
